@@ -24,7 +24,7 @@ sys.path.insert(0, os.path.join(VERIF, "tools"))
 import vbuild  # noqa: E402
 
 ENV = dict(os.environ)
-ENV["ASAN_OPTIONS"] = "detect_leaks=0:abort_on_error=0:exitcode=86:allocator_may_return_null=0:detect_stack_use_after_return=0"
+ENV["ASAN_OPTIONS"] = "detect_leaks=0:quarantine_size_mb=16:allocator_release_to_os_interval_ms=-1:abort_on_error=0:exitcode=86:allocator_may_return_null=0:detect_stack_use_after_return=0"
 ENV["UBSAN_OPTIONS"] = "print_stacktrace=1:halt_on_error=1:exitcode=86"
 NCPU = min(16, os.cpu_count() or 4)
 
